@@ -1,6 +1,6 @@
 package c14
 
-// Directed key-size sweep: for every bank key whose proto has a key_value (at the top level or in the
+// Directed key-size sweep: for every SYMMETRIC bank key whose proto has a key_value (at the top level or in the
 // aes_ctr_key / hmac_key sub-messages), the otherwise VALID key with key material of every size around the AES /
 // HMAC boundaries - one factor at a time, so that a size check moved, dropped or replaced by another layer's
 // (seeded change C14f: X-AES-GCM validated through the AES-CMAC constructor, which takes 16 and 24 bytes too)
@@ -17,13 +17,19 @@ import (
 	"google.golang.org/protobuf/reflect/protoregistry"
 )
 
-var sweepSizes = []int{0, 15, 16, 17, 24, 31, 32, 33, 48, 63, 64, 65}
+var sweepSizes = []int{0, 15, 16, 17, 24, 31, 32, 33, 47, 48, 49, 63, 64, 65, 128}
 
 func directedKeySizes() []string {
 	var lines []string
 	seen := map[string]bool{}
 	for _, bk := range bank {
 		k := toMKey(bk, 9, 1)
+		if k.Mat != 1 {
+			// SYMMETRIC keys only: an asymmetric key with other private material no longer matches its public
+			// part (or its legal size lies outside the sweep), so every row would answer err whatever the size
+			// rule - it could not fire (fifth audit C-6)
+			continue
+		}
 		name := strings.TrimPrefix(k.URL, tp)
 		if seen[name+fmt.Sprint(k.Prefix)] {
 			continue
